@@ -53,7 +53,7 @@ CHECKS = {
     "C14": dict(cat="model_checking", tech="fault enumeration at every operator application index, traces validated by TLC (OpThrows action), digest equality with the fault-free baseline + fault kinds: exception outside std::exception, operator returning NaN so that the library's own wrapper throws; UsableAfterFault",
                 text="For six solver classes the wrapper throws a tagged exception at application k for k over the fault-free run's applications (every 3rd/7th in quick, all and pairs in thorough): the same exception reaches the caller, the event prefix is a behaviour of the spec with OpThrows, and init(); compute() afterwards reproduces the fault-free digest; repeated identical executions leave the same number of live heap blocks. Session 4: faults of a type outside the std::exception hierarchy at every application index (incl. the eigenvalue-recovery solves of the complex-shift solver); the user's A operator returning one NaN entry so that the library's own SparseRegularInverse wrapper is what throws; rule UsableAfterFault: the fault-free retry after the fault is removed must not fail; every observed call judged against IRPublic.PubStep (PInitFault / PComputeFault).",
                 ref="6 C14"),
-    "C15": dict(cat="model_checking", tech="Davidson.tla design model of the search-space bookkeeping, whose operators (DavidsonOps) TLC also replays over the JDIter hook events of every recorded run (sizes, restarts, adjusted parameters) + TLC validation of the recorded results with true residuals + compute_with_guess() after compute() on one object; opposite-sign LargestMagn family",
+    "C15": dict(cat="model_checking", tech="Davidson.tla design model of the search-space bookkeeping, whose operators (DavidsonOps) TLC also replays over the JDIter hook events of every recorded run (sizes, restarts, adjusted parameters) + TLC validation of the recorded results with true residuals + object-level call-history model (compute / compute_with_guess) with a negative control; compute_with_guess() after compute() on one object; opposite-sign LargestMagn family",
                 text="Design model: for all (n <= 12, nev, initial, maximal) in the documented domain the small eigenproblem always has at least nev and at most n basis vectors, iterations bounded, documented status. Runs (dense/sparse, four rules, restarts, user guesses, second compute on the same object, correction size below nev): Successful implies compute() = nev, every true residual (recomputed from the harness' own A in long double) below tol, unit norm, orthonormal, ordered by the rule, and the returned set is the wanted end of the reference spectrum; results always finite. Session 4: a compute_with_guess() with another rule and two iterations after a successful compute() on the same object (the status must describe this call); matrices with two wanted eigenvalues of nearly equal magnitude and opposite sign converging at different speeds (the order of the Ritz pairs changes while some are converged).",
                 ref="6 C15"),
     "C16": dict(cat="model_checking", tech="TLC-generated call sequences of MC_SVDSeq (all behaviours up to a length bound, TLC -dump) executed on the real PartialSVDSolver and replayed by TLC through the same SV_* operators (spec -> code -> spec); Apalache proves the read invariants inductive for unbounded calls; PartialSVD.tla design model with negative control; TLC validation of recorded runs against a long double reference SVD",
